@@ -96,6 +96,23 @@ def run_case(ctx, name, params):
         s = SurrogateModelEval(p)
         trained0 = True
     p.surrogate = s
+    # a second surrogate model on another problem, alive at the same time and used in between (two optimisations in one process): the
+    # accounting of one model never sees the other's requests
+    sib = None
+    if r.random() < 0.3:
+        class Sib(SurrogateModelPredict):
+            def train(self):
+                self.trained = True
+
+            def predict(self, x, *a):
+                return None
+        p2 = hooks.make_problem(n=n, m=1, fn=lambda x: [sum(x) - 7.0], predict=lambda individual: [42.0])
+        sib = SurrogateModelEval(p2) if kind == "passthrough" else Sib(p2)
+        if kind != "passthrough":
+            sib.train_step = r.choice([1, 2, 3])
+            sib.regressor = object()
+        p2.surrogate = sib
+        ctx.count("histories_with_a_second_surrogate_alive")
     if kind != "scikit_stub" and r.random() < 0.25:
         # the public statistics switch is about scores, not about accounting: the counters count whatever it says
         s.eval_stats = False
@@ -133,6 +150,8 @@ def run_case(ctx, name, params):
             ind.costs_signed = [ind.costs[0], True]
             ind.state = Individual.State.EVALUATED
             ctx.count("requests_with_an_already_evaluated_design_object")
+        if sib is not None and r.random() < 0.5:
+            sib.evaluate(Individual([r.uniform(-1, 1) for _ in range(n)]))
         hk_before = hook_calls[0]
         if kind == "scikit_stub":
             s.regressor.next_score = r.choice([1.0, 0.9, 0.2, -3.0, 0.5])     # how well the regressor fits is not the wrapper's business
